@@ -189,6 +189,16 @@ func (c *Ctx) addHyp(t *Term) {
 	if t == nil || isTrue(t) {
 		return
 	}
+	// a side fact produced while evaluating under a contract quantifier mentions
+	// that quantifier's bound variable: it means nothing globally, drop it
+	// (fewer hypotheses is always sound)
+	fc := map[string]*Sort{}
+	freeConsts(t, fc, map[string]bool{})
+	for n := range fc {
+		if i := strings.LastIndex(n, "!b"); i > 0 && !strings.ContainsAny(n[i+2:], "abcdefghijklmnopqrstuvwxyz.$") {
+			return
+		}
+	}
 	c.hyps = append(c.hyps, t)
 }
 
